@@ -4,7 +4,7 @@ import json, sys
 
 CHECKS = {
  "C01": dict(tech="runtime monitoring: admission-check oracle over recorded parse/extend histories",
-   text="Every source document of every generated history (exhaustive tiny histories + seeded random histories, quick ~0.8M, thorough ~4M+) is walked against the schema extracted from the rendered structs: each attribute/child has a field, non-Option fields are present in every occurrence, non-Vec children occur at most once, character data only where a text field or String typing exists. Held-on-observed-executions, not a proof.",
+   text="Every source document of every generated history (exhaustive tiny histories, seeded random histories incl. wide/deep/long-list/many-document profiles, deterministic threshold families around powers of two; quick ~0.8M, thorough ~4.9M) is walked against the schema extracted from the rendered structs: each attribute/child has a field, non-Option fields are present in every occurrence, non-Vec children occur at most once, character data only where a text field or String typing exists. Held-on-observed-executions, not a proof.",
    note="Trusts the AST serializer (ground truth is the generated AST, not a parse), the line-grammar extractor of the rendered text and quick-xml 0.37.5's default reader.", ref="4/C01"),
  "C03": dict(tech="runtime monitoring: history + executable reference model (equality oracle)",
    text="The canonical schema extracted from the rendered output (and the Element tree API) is compared for equality with an independent ~60-line reference inference computed from the document ASTs, on exhaustive tiny histories and seeded random histories.",
@@ -19,10 +19,10 @@ CHECKS = {
    text="Every struct name must be PascalCase(own) preceded by the PascalCase names of its k nearest ancestors (optional numeric / reserved-name suffix); the first struct is the root's; a PascalCase name occurring at a single position must be unqualified.",
    note="convert_string::to_pascal_case (a dependency of the crate) is trusted as the definition of the PascalCase form.", ref="4/C14"),
  "C15": dict(tech="runtime monitoring: exhaustive enumeration of tagged list pairs against a reference merge",
-   text="merge_necessity is called on every ordered pair of duplicate-free tagged lists over an alphabet of 5 (quick, 40M pairs) / 6 (thorough, 5.8G pairs), element types u8/String/&str, plus random longer lists; result compared for equality with a 15-line reference (membership, conjunction of necessity, stable order).",
+   text="merge_necessity is called on every ordered pair of duplicate-free tagged lists over an alphabet of 5 (quick, 40M pairs) / 6 (thorough, 5.8G pairs), element types u8/String/&str, plus random lists to length 12 and long lists (to 520 items; u16, long Strings, a key-only PartialEq type); result compared for equality with a 15-line reference (membership, conjunction of necessity, stable order).",
    note="Exhaustive within the alphabet bound only; larger lists are sampled.", ref="4/C15", exhaustive=True),
  "C16": dict(tech="runtime monitoring: operation histories stepped in lock-step with an ordered-map model, invariant + rendering compared after every operation",
-   text="All sequences of 4 (quick) / 5 (thorough) operations over 17 public construction operations plus random sequences up to length 40; after every step children()/get_child()/remove_child()/standalone()/text and the rendered fields are compared with the model, and the rendering goes through the C04 well-formedness checker.",
+   text="All sequences of 4 (quick) / 5 (thorough) operations over 22 public construction operations (incl. cut/paste of previously used elements; names a, b, type, d, ns:e, F, text) plus random sequences up to length 40; after every step children()/get_child()/remove_child()/standalone()/text and the rendered fields are compared with the model, and the rendering goes through the C04 well-formedness checker.",
    note="Attributes are observable only through rendering; fields are compared as sets because order is not claimed for hand-built trees.", ref="4/C16", exhaustive=True),
  "C07": dict(tech="runtime monitoring: hostile byte workloads in journalled child processes with catch_unwind, exit-status and no-progress monitors; valgrind memcheck slice in thorough",
    text="1.6M (quick) / 64M (thorough) hostile inputs x reader kinds x all 128 reader configurations, through into_struct, extend_struct and to_serde_struct under presets and hostile option strings; a panic is caught per call, a dead or wedged process is pinned to its case through a journal and confirmed by re-running that case alone three times; nesting ladders to depth 200 on a 2 MiB stack. Thorough adds a valgrind memcheck slice.",
@@ -43,10 +43,10 @@ CHECKS = {
    text="Each history is compared with ~10 rewritten variants (empty-element spelling, expand_empty_elements, reader kinds and buffer sizes down to 1, quoting/blank/character-reference syntax, attribute values, text/CDATA swaps and splits, comments, PIs, XML declaration, DOCTYPE); sorted and unsorted renderings must be byte-identical.",
    note="Whitespace-only text is only rewritten to whitespace-only text; the generator re-checks that a rewrite leaves the reference schema unchanged.", ref="4/C11"),
  "C12": dict(tech="runtime monitoring: the real binary under an input/option/fault matrix; in-process library rendering as oracle; before/after snapshots and strace syscall log for file effects",
-   text="1.6k (quick) / 16k (thorough) runs of the binary built from the working tree: exit status, stdout, stderr, output file bytes compared with header + library rendering for independently mapped options; on input faults the output path must be untouched, observed by inode/mtime/bytes snapshots and (every third run) by strace -e trace=%file,write showing no syscall with write intent on that path.",
+   text="4.8k (quick) / 48k (thorough) runs of the binary built from the working tree (inputs from temp files and through a pipe; outputs to stdout, new/existing/near-copy files, symlinks, relative and odd names, the input itself, uncreatable paths): exit status, stdout, stderr, output file bytes compared with header + library rendering for independently mapped options; on input faults the output path must be untouched, observed by inode/mtime/bytes snapshots and (every third run) by strace -e trace=%file,write showing no syscall with write intent on that path.",
    note="env_logger feature not built; EPIPE and permission faults out of scope (root sandbox).", ref="4/C12"),
  "C02": dict(tech="runtime monitoring of generated programs: rendered source compiled by rustc and executed against its source documents (quick_xml::de), values compared with the document ASTs",
-   text="768 (quick) / 9600 (thorough) generated programs, each the verbatim rendering for a random data-oriented history with unique value tokens, are compiled (edition 2021) and run: from_str::<Root> on every source document, plain and with deny_unknown_fields; the deserialized value (re-serialized as JSON through the derived Serialize) must hold every attribute value and text content in the field bound to it. rustc diagnostics are attributed to their program by file name.",
+   text="~800 (quick) / 9600 (thorough) generated programs (random + 27 deterministic threshold programs: depth to 90, 64-130 distinct children, 255-257 siblings/occurrences, long values), each the verbatim rendering for a random data-oriented history with unique value tokens, are compiled (edition 2021) and run: from_str::<Root> on every source document, plain and with deny_unknown_fields; the deserialized value (re-serialized as JSON through the derived Serialize) must hold every attribute value and text content in the field bound to it. rustc diagnostics are attributed to their program by file name.",
    note="Oracles: rustc (default toolchain), serde 1.0.229, quick-xml 0.37.5 with overlapped-lists; programs tripping only the listed C04 duplicate-struct findings are counted and not compiled.", ref="4/C02", cat="translation_validation"),
  "C13": dict(tech="runtime monitoring of generated programs: rendered source (serde-xml-rs preset) compiled by rustc and executed with serde_xml_rs::from_str, values compared with the document ASTs",
    text="Same machinery as C02 with the serde-xml-rs preset and a workload inside the statement's preconditions (no prefixes/xmlns, attribute names disjoint from child names, repeated children adjacent, no mixed content). One listed known finding (text bound to $text is lost with serde-xml-rs 0.6.0); compile failures, Err results, lost attribute values and lost text of String-typed children still raise.",
